@@ -454,89 +454,51 @@ func isZeroEnum(t *ir.Term) bool {
 	return ok && v == 0
 }
 
-// tokenLoop: R2 — the own-level decodeOne is applied to every element of
-// values (v2) / values[1:] (v3), with no way to skip an element or leave early
-// other than returning.
+// tokenLoop: R2 — the own-level decodeOne is applied to every '/'-separated
+// element (v2) / every element after the prefix (v3), as the first thing done
+// with the element, with no way to skip one or to leave early other than
+// returning.
 func (e *Env) tokenLoop(m *decodeModel, who string, v3 bool) {
 	c := e.C
 	fail := func(msg string) { c.Fail("token-loop", who, e.P.Pos(m.One.Pos()), msg) }
-	blk := m.One.Block()
-	// argument: element i of the token slice
-	arg := m.One.Call.Args[1]
-	ld, ok := arg.(*ssa.UnOp)
-	if !ok || ld.Op != token.MUL {
+	ia := elementOf(m.One.Call.Args[1])
+	if ia == nil {
 		fail("decodeOne is not applied to an element of the split input")
 		return
 	}
-	ia, ok := ld.X.(*ssa.IndexAddr)
-	if !ok {
-		fail("decodeOne is not applied to an element of the split input")
+	lp, why := analyseIndexLoop(ia)
+	if lp == nil {
+		fail("the tokens are not visited by a loop over all of them: " + why)
 		return
 	}
-	slice := ia.X
-	st := m.B.Term(slice)
-	var want *ir.Term
-	if v3 {
-		want = &ir.Term{Op: ir.OSlice, Args: []*ir.Term{m.Values, intConst(1), {Op: ir.OConst}, {Op: ir.OConst}}}
-	} else {
-		want = m.Values
-	}
-	if st.Key() != want.Key() {
-		fail("the loop does not range over " + want.Pretty() + " but over " + st.Pretty())
-		return
-	}
-	// canonical range-index loop: header = idom with  i+1 < len(slice)
-	h := blk.Idom()
-	if h == nil || len(h.Instrs) == 0 {
-		fail("loop header not found")
-		return
-	}
-	iff, ok := h.Instrs[len(h.Instrs)-1].(*ssa.If)
-	if !ok || h.Succs[0] != blk {
+	if m.One.Block() != lp.Body {
 		fail("decodeOne is not the first thing done for each element (something may skip it)")
 		return
 	}
-	cmp, ok := iff.Cond.(*ssa.BinOp)
-	if !ok || cmp.Op != token.LSS || cmp.X != ia.Index {
-		fail("loop condition is not index < len(tokens)")
+	st := m.B.Term(lp.Slice)
+	sliced := &ir.Term{Op: ir.OSlice, Args: []*ir.Term{m.Values, intConst(1), {Op: ir.OConst}, {Op: ir.OConst}}}
+	first := int64(-1)
+	switch st.Key() {
+	case m.Values.Key():
+		first = lp.Start
+	case sliced.Key():
+		first = lp.Start + 1
+	}
+	want := int64(0)
+	if v3 {
+		want = 1
+	}
+	switch {
+	case first < 0:
+		fail("the loop does not range over the split input but over " + st.Pretty())
+		return
+	case first != want:
+		fail(fmt.Sprintf("the loop starts at element %d of the split input, expected %d", first, want))
 		return
 	}
-	if lc, ok := cmp.Y.(*ssa.Call); !ok || !isBuiltin(lc, "len") || lc.Call.Args[0] != slice {
-		fail("loop bound is not len of the ranged slice")
-		return
-	}
-	inc, ok := ia.Index.(*ssa.BinOp)
-	if !ok || inc.Op != token.ADD || !isIntConst(inc.Y, 1) {
-		fail("loop index is not incremented by one")
-		return
-	}
-	phi, ok := inc.X.(*ssa.Phi)
-	if !ok || phi.Block() != h {
-		fail("loop index is not a loop variable of the header")
-		return
-	}
-	for i, ed := range phi.Edges {
-		pred := h.Preds[i]
-		if h.Dominates(pred) {
-			if ed != ssa.Value(inc) {
-				fail("loop index is modified inside the loop")
-				return
-			}
-		} else if !isIntConst(ed, -1) {
-			fail("loop does not start at the first element")
-			return
-		}
-	}
-	// the call precedes any branch of its block (nothing can skip it) — it is in the body's entry block
-	// no break: the loop exit block has the header as its only predecessor
-	exit := h.Succs[1]
-	if len(exit.Preds) != 1 {
-		fail("the loop can be left early (break): not every token is examined")
-		return
-	}
-	m.Header = h
+	m.Header = lp.Header
 	m.Tokens = st
-	c.Ok("token-loop", who, e.P.Pos(m.One.Pos()), "own-level decodeOne applied to every element of "+want.Pretty()+"; no skip, no early exit other than return")
+	c.Ok("token-loop", who, e.P.Pos(m.One.Pos()), fmt.Sprintf("own-level decodeOne applied to every element of the split input from index %d on; no skip, no early exit other than return", want))
 }
 
 func isBuiltin(c *ssa.Call, name string) bool {
@@ -584,42 +546,45 @@ func (e *Env) deferredError(m *decodeModel, who string, sconds []*ir.Term) {
 		return
 	}
 	ok := true
-	for i, ed := range last.Edges {
-		pred := h.Preds[i]
-		if !h.Dominates(pred) {
-			if !isNilValue(ed) {
-				ok = false
-				c.Fail("deferred-error", who, e.P.Pos(last.Pos()), "the remembered error does not start as nil")
-			}
-			continue
+	// leaves of the (possibly nested) φ-tree feeding the loop-carried variable
+	var visit func(p *ssa.Phi, seen map[*ssa.Phi]bool)
+	visit = func(p *ssa.Phi, seen map[*ssa.Phi]bool) {
+		if seen[p] {
+			return
 		}
-		// inside the loop
-		conds := ir.DomConds(m.B, pred)
-		// include the edge condition when pred itself branches to the header
-		if len(pred.Succs) == 2 {
-			iff := pred.Instrs[len(pred.Instrs)-1].(*ssa.If)
-			cnd := m.B.Term(iff.Cond)
-			if pred.Succs[1] == h {
-				cnd = ir.NotCond(cnd)
+		seen[p] = true
+		for i, ed := range p.Edges {
+			pred := p.Block().Preds[i]
+			if p == last && !h.Dominates(pred) {
+				if !isNilValue(ed) {
+					ok = false
+					c.Fail("deferred-error", who, e.P.Pos(last.Pos()), "the remembered error does not start as nil")
+				}
+				continue
 			}
-			conds = append(conds, cnd)
-		}
-		switch {
-		case ir.HasCond(conds, rNonNil):
-			if ed != r {
+			if q, isPhi := ed.(*ssa.Phi); isPhi && q != last && h.Dominates(q.Block()) {
+				visit(q, seen)
+				continue
+			}
+			conds := edgeConds(m.B, pred, p.Block())
+			switch {
+			case ir.HasCond(conds, rNonNil):
+				if ed != r {
+					ok = false
+					c.Fail("deferred-error", who, e.P.Pos(m.One.Pos()), "on a path where decodeOne failed and Decode carries on, the error is not remembered")
+				}
+			case ir.HasCond(conds, ir.NotCond(rNonNil)):
+				if ed != ssa.Value(last) {
+					ok = false
+					c.Fail("deferred-error", who, e.P.Pos(m.One.Pos()), "the remembered error is overwritten when a later token decodes fine")
+				}
+			default:
 				ok = false
-				c.Fail("deferred-error", who, e.P.Pos(m.One.Pos()), "on a path where decodeOne failed and Decode carries on, the error is not remembered")
+				c.Undecided("deferred-error", who, e.P.Pos(m.One.Pos()), "a loop back-edge not classified by decodeOne's result")
 			}
-		case ir.HasCond(conds, ir.NotCond(rNonNil)):
-			if ed != ssa.Value(last) {
-				ok = false
-				c.Fail("deferred-error", who, e.P.Pos(m.One.Pos()), "the remembered error is overwritten when a later token decodes fine")
-			}
-		default:
-			ok = false
-			c.Undecided("deferred-error", who, e.P.Pos(m.One.Pos()), "a loop back-edge not classified by decodeOne's result")
 		}
 	}
+	visit(last, map[*ssa.Phi]bool{})
 	lastT := m.B.Term(last)
 	if !ir.HasCond(sconds, ir.Bin("==", lastT, nilOf(errorType))) {
 		ok = false
